@@ -87,6 +87,7 @@ type Client struct {
 	NegProto     string
 	TLSVersion   uint16
 	Resps        []*RespRecord
+	WriteSteps   []int // controller step at which each "write" step executed
 	StepErrs     []string
 
 	// h2raw
@@ -243,6 +244,9 @@ func (c *Client) exec(s *Step) error {
 		if c.tls == nil {
 			return fmt.Errorf("not connected")
 		}
+		c.W.mu.Lock()
+		c.WriteSteps = append(c.WriteSteps, c.W.Step)
+		c.W.mu.Unlock()
 		for _, p := range s.Pieces {
 			if _, err := c.tls.Write(p); err != nil {
 				return err
